@@ -26,8 +26,7 @@ import (
 )
 
 // sanitize keeps a random design inside the envelope of the recorded findings that
-// designgen.DefaultOptions can still draw: a map parameter with MaxLength < 3 (empty CLI
-// example: panic), a primitive payload mapped to a header, Enum on sized-int array elements.
+// designgen.DefaultOptions can still draw: a primitive payload mapped to a header, Enum on sized-int array elements.
 func sanitize(d *dg.Design) {
 	// Enum(1,2,3) on array elements of a sized integer type panics in the example generator
 	var walk func(t *dg.Type)
@@ -66,11 +65,6 @@ func sanitize(d *dg.Design) {
 			}
 			if m.HTTP == nil || m.Payload == nil || m.Payload.T.Kind != "object" {
 				continue
-			}
-			for _, e := range m.HTTP.Params {
-				if f := fieldByName(&m.Payload.T, e.Attr); f != nil && f.A.T.Kind == "map" && f.A.V != nil && f.A.V.MaxLen != nil && *f.A.V.MaxLen < 3 {
-					f.A.V.MaxLen = dg.Ip(3)
-				}
 			}
 		}
 	}
@@ -321,13 +315,22 @@ func main() {
 		}
 		var clean []DCase
 		flagged := 0
+		perFeature := map[string]int{}
 		for i, c := range hs {
 			res.Count("hostile_eval=" + evs[i].Stage)
 			kind := strings.SplitN(strings.TrimPrefix(c.Name, "h_"), "_", 2)[0]
 			res.Count("hostile_eval[" + kind + "]=" + evs[i].Stage)
 			switch evs[i].Stage {
 			case "accepted":
-				if len(designFeatures(c.Design)) > 0 {
+				if fs := envelopeViolations(c.Design); len(fs) > 0 {
+					// designs carrying the feature of a recorded finding run one by one; the quick tier
+					// re-demonstrates at most 5 per feature set, the thorough tier all of them
+					key := strings.Join(fs, "+")
+					perFeature[key]++
+					if *tier != "thorough" && perFeature[key] > 5 {
+						res.Count("hostile_flagged_left_to_thorough")
+						continue
+					}
 					cases = append(cases, c)
 					flagged++
 				} else {
@@ -350,7 +353,17 @@ func main() {
 		// identifier stream
 		ids := append(collectIdentifiers(*repo), "isvc")
 		isingles, ipacks, imembers := identStream(ids, 10)
-		cases = append(cases, isingles...)
+		perIdent := map[string]int{}
+		for _, c := range isingles {
+			// known-failing combinations: quick re-demonstrates 2 per identifier, thorough all
+			id := c.Name[strings.LastIndex(c.Name, "_")+1:]
+			perIdent[id]++
+			if *tier != "thorough" && perIdent[id] > 2 {
+				res.Count("ident_known_left_to_thorough")
+				continue
+			}
+			cases = append(cases, c)
+		}
 		for _, pk := range ipacks {
 			packMembers[pk.Name] = imembers[pk.Name]
 			cases = append(cases, pk)
@@ -485,7 +498,9 @@ func main() {
 	res.Extra["names_cases"] = map[string]int{"goify": st.goify, "camelcase": st.camel, "scope_sequences": st.scope}
 	res.Extra["designs"] = map[string]int{"total": len(cases), "accepted": accepted, "built_ok": built}
 	res.Extra["design_cases"] = recs
-	res.Extra["seconds"] = map[string]float64{"names": tNames.Seconds(), "total": time.Since(t0).Seconds()}
+	phaseSeconds["names"] = tNames.Seconds()
+	phaseSeconds["total"] = time.Since(t0).Seconds()
+	res.Extra["seconds"] = phaseSeconds
 	sort.Slice(res.Failures, func(i, j int) bool { return res.Failures[i].Signature < res.Failures[j].Signature })
 	must(res.Write(filepath.Join(*out, "result.json")))
 }
